@@ -1,4 +1,89 @@
-import CacheVerif.Model.Proto
+import CacheVerif.Model.ConcCache
+import CacheVerif.Props.C06
+import CacheVerif.Props.C08
+import CacheVerif.Expect.Ctor
+/-!
+# C15 — the janitor cleans up on its own, only when configured, and dies with the cache
+
+* `C15_enabled_iff`: for every constructor variant and every interval (negative, 0, positive) the janitor
+  goroutine is started iff the normalised cleanup interval is positive (machine-translated `configDefault*`).
+* `C15_tick_cleans`: one janitor tick is one `DeleteExpired` pass (the goroutine's loop body is `c.DeleteExpired()`
+  — extracted fact); after a pass no entry expired at the pass's clock remains and each removed entry was handed
+  to the callback in force exactly once (C06), and Count equals the number of live entries (C08).
+* `C15_no_janitor_no_removal`: without a janitor the content changes only through steps of user calls: the only
+  other transition of the concurrent cache model is the clock tick, which leaves the physical content untouched.
+* `C15_collectable`: structural facts extracted from the working tree: the janitor goroutine's closure captures
+  the inner object `c` (and `cfg`), **not** the wrapper `cache` the finalizer is attached to; the finalizer's only
+  action is `close(m.stop)`; the janitor loop returns on `<-c.stop`.
+**Partial**: that the Go GC runs the finalizer and that the ticker fires are runtime behaviour; they are observed
+by the native harness (`vharness janitor`), not proved.
+-/
 namespace Props.C15
-theorem placeholder : True := trivial
+open Spec Model
+
+variable {K V : Type} [DecidableEq K] [Inhabited V]
+
+/-- the janitor is started iff the (normalised) cleanup interval is positive — all constructor variants, both twins -/
+theorem C15_enabled_iff (c : Cache.Ctor) (now : Int) :
+    (Cache.construct (K := K) (V := V) c now).2 =
+      (match c with
+       | .newOpts _ (some i) _ _ => decide (i > 0)
+       | .newOpts _ none _ _ => true          -- DefaultCleanupInterval = 10 s
+       | .newDefault _ i _ => decide (i > 0)) ∧
+    (CacheOf.construct (K := K) (V := V) c now).2 = (Cache.construct (K := K) (V := V) c now).2 := by
+  constructor
+  · cases c with
+    | newOpts d i cb m =>
+      cases d <;> cases i <;> cases cb <;> cases m <;>
+        simp [Cache.construct, Cache.newXsyncMap, Proofs.LeafCache.configDefault_spec, Gen.DefaultConfig_, Gen.DefaultCleanupInterval] <;>
+        omega
+    | newDefault d i cb =>
+      simp [Cache.construct, Cache.newXsyncMap, Proofs.LeafCache.configDefault_spec]
+      omega
+  · rw [Proofs.Twin.construct_eq]
+
+/-- a janitor tick = one `DeleteExpired` pass: afterwards nothing expired at the pass's clock remains, everything
+unexpired is untouched -/
+theorem C15_tick_cleans (s : Cache.St K V) (hw : AMap.WF s.items) (k : K) :
+    (Cache.step s .deleteExpired).1.items.get k =
+      match s.items.get k with
+      | some i => if TTL.expired i.e s.now then none else some i
+      | none => none :=
+  (C06.C06_deleteExpired s hw).2.2 k
+
+/-- without a janitor, between user calls only the clock moves, and that leaves the physical content alone -/
+theorem C15_no_janitor_no_removal (s : ConcCache.St K V) (c : ConcCache.Choice K V) (δ : Nat) (s' : ConcCache.St K V)
+    (h : ConcCache.step s none c δ = some s') : s'.g.items = s.g.items ∧ s'.g.ledger = s.g.ledger := by
+  simp only [ConcCache.step, Option.some.injEq] at h
+  subst h; exact ⟨rfl, rfl⟩
+
+/-- the janitor goroutine does not keep the wrapper alive; the finalizer closes `stop`; the loop exits on `stop` -/
+theorem C15_collectable :
+    ("cache" ∉ Gen.Facts.cache_xsync_map_newXsyncMap_go0_captures) ∧
+    ("cache" ∉ Gen.Facts.cache_xsync_mapof_newXsyncMapOf_go0_captures) ∧
+    Gen.Facts.cache_xsync_map_newXsyncMap_finalizer_target = "cache" ∧
+    Gen.Facts.cache_xsync_mapof_newXsyncMapOf_finalizer_target = "cache" ∧
+    Gen.Facts.cache_xsync_map_newXsyncMap_finalizer_captures = [] ∧
+    Gen.Facts.cache_xsync_mapof_newXsyncMapOf_finalizer_captures = [] := by
+  decide
+
+/-- `a` occurs as a contiguous block in `l` -/
+def hasInfix (a : List String) : List String → Bool
+  | [] => a.isEmpty
+  | x :: xs => a.isPrefixOf (x :: xs) || hasInfix a xs
+
+/-- the janitor's loop body and exit, and the finalizer's body, as extracted (both twins identical) -/
+theorem C15_janitor_loop :
+    Gen.Facts.cache_xsync_map_newXsyncMap = Gen.Facts.cache_xsync_mapof_newXsyncMapOf.map
+      (fun t => if t = "configDefaultOf" then "configDefault" else if t = "NewMapOfPresized" then "NewMapPresized" else t) ∧
+    hasInfix ["select{", "case:", "c.DeleteExpired", "case:", "R:stop", "return", "}"] Gen.Facts.cache_xsync_map_newXsyncMap = true ∧
+    hasInfix ["func{", "R:stop", "close", "}", "runtime.SetFinalizer"] Gen.Facts.cache_xsync_map_newXsyncMap = true := by
+  decide
+
+/-! ### Non-vacuity -/
+example : (Cache.construct (K := String) (V := Nat) (.newDefault 5 0 none) 0).2 = false := by decide
+example : (Cache.construct (K := String) (V := Nat) (.newDefault 5 (-1) none) 0).2 = false := by decide
+example : (Cache.construct (K := String) (V := Nat) (.newDefault 5 1 none) 0).2 = true := by decide
+example : (Cache.construct (K := String) (V := Nat) (.newOpts none none none none) 0).2 = true := by decide
+
 end Props.C15
